@@ -98,7 +98,8 @@ def run(repo, R):
     R.check(okb, "CMP", scr.site, "bool rejected", "a bool tolerance must be rejected (True would silently mean tol=1)",
             where=scr.where(), expected=f"if isinstance({ptol}, bool): raise TypeError", found=[k for k, _s, _v, _e in outs["bool"]])
     # a number: one comparison decides
-    nums = [(k, s_, v) for k, s_, v, _e in outs["num"] if not (k == "return" and isinstance(v, ast.Constant) and v.value is False and decide_is_zero_path(s_, fn, ptol))]
+    nums = [(k, s_, v) for k, s_, v, _e in outs["num"] if not (k == "return" and isinstance(v, ast.Constant) and v.value is False
+                                                              and (decide_is_zero_path(s_, fn, ptol) or implied_not_screened(s_, fn, scr.params[:3])))]
     comps = [(s_, v) for k, s_, v in nums if k == "return"]
     if [k for k, _s, _v in nums if k != "return"]:
         R.fail("CMP", scr.site, "numeric tolerance", "a numeric tolerance can end in an exception / without a result", where=scr.where())
@@ -222,7 +223,13 @@ def run(repo, R):
         R.check(ktol not in deps, "KEEP", ker.site, "computed block independent of tol_screen",
                 "the value of a kept block depends on the tolerance", where=ker.where(r), expected="no dependence", found=sorted(deps))
     # screened check dominates the compute: the If comes before the computed return at top level
-    R.check(all(st.lineno < r.lineno for r in others) and st in kfn.body, "KEEP", ker.site, "screening decided before computing",
+    # (a return of a literal block of zeros elsewhere is the same with and without screening: whether that shortcut is right is the
+    # operator's own property, not this one)
+    def _zero_block(v):
+        v = res(v)
+        return isinstance(v, ast.Call) and dotted(v.func) in ("np.zeros", "numpy.zeros", "np.zeros_like", "numpy.zeros_like")
+    computing = [r for r in others if not _zero_block(r.value)]
+    R.check(all(st.lineno < r.lineno for r in computing) and st in kfn.body, "KEEP", ker.site, "screening decided before computing",
             "the screening test does not dominate the computation", where=ker.where(st))
     # ---------------------------------------------------------------- wrapper dispatch
     check_wrapper_dispatch(repo, wrap, R, "DISPATCH")
@@ -255,6 +262,70 @@ def decide_is_zero_path(ret_stmt, fn, ptol):
     for st in ast.walk(fn):
         if isinstance(st, ast.If) and ret_stmt in ast.walk(st) and ast.unparse(st.test) in (f"not {ptol}", f"{ptol} is None or {ptol} == 0"):
             return True
+    return False
+
+
+def implied_not_screened(ret_stmt, fn, params):
+    """Is `return False` taken only where the documented comparison distance > cutoff is False anyway?  Recognised reasons (each must
+    hold on the whole path): the tolerance is zero or negative (cutoff infinite / not a number), a quantity computed from
+    log(tolerance) is infinite or not finite, or the two centres are exactly equal / the two shells are one object (distance zero,
+    and no cutoff is negative)."""
+    p1, p2, ptol = params
+    pc = path_conditions(fn)
+    conds = []
+    for t, pol in pc.get(id(ret_stmt), ()):
+        if pol and isinstance(t, ast.BoolOp) and isinstance(t.op, ast.And):
+            conds.extend((v, True) for v in t.values)
+        elif not pol and isinstance(t, ast.BoolOp) and isinstance(t.op, ast.Or):
+            conds.extend((v, False) for v in t.values)
+        else:
+            conds.append((t, pol))
+    D = Defs(fn)
+
+    def from_log_tol(name):
+        seen, work = set(), [name]
+        while work:
+            nm = work.pop()
+            if nm in seen:
+                continue
+            seen.add(nm)
+            for _k, _st, val, _p in D.of(nm):
+                if val is None:
+                    continue
+                for c_ in ast.walk(val):
+                    if isinstance(c_, ast.Call) and (dotted(c_.func) or "").split(".")[-1] in ("log", "log10", "log2") and c_.args \
+                            and ptol in {n.id for n in ast.walk(c_.args[0]) if isinstance(n, ast.Name)}:
+                        return True
+                work.extend(D.names_in(val))
+        return False
+
+    def coords(e):
+        return isinstance(e, ast.Attribute) and e.attr == "coord" and isinstance(e.value, ast.Name) and e.value.id in (p1, p2)
+
+    for t, pol in conds:
+        txt = ast.unparse(t)
+        if pol and txt in (f"{ptol} == 0", f"{ptol} == 0.0", f"{ptol} <= 0", f"{ptol} <= 0.0", f"0 == {ptol}", f"0 >= {ptol}", f"{ptol} < 0"):
+            return True
+        if not pol and txt in (f"{ptol}", f"{ptol} > 0", f"{ptol} != 0", f"0 < {ptol}"):
+            return True
+        if isinstance(t, ast.Call) and len(t.args) == 1 and isinstance(t.args[0], ast.Name) and from_log_tol(t.args[0].id):
+            short = (dotted(t.func) or "").split(".")[-1]
+            if (pol and short in ("isinf", "isposinf", "isnan")) or (not pol and short == "isfinite"):
+                return True
+        if pol and isinstance(t, ast.Compare) and len(t.ops) == 1 and isinstance(t.ops[0], ast.Eq) and isinstance(t.left, ast.Name) and from_log_tol(t.left.id) \
+                and ast.unparse(t.comparators[0]) in ("np.inf", "numpy.inf", "math.inf", "float('inf')", 'float("inf")'):
+            return True
+        if pol and isinstance(t, ast.Compare) and len(t.ops) == 1 and isinstance(t.ops[0], ast.Is) and {ast.unparse(t.left), ast.unparse(t.comparators[0])} == {p1, p2}:
+            return True
+        if pol and isinstance(t, ast.Call) and (dotted(t.func) or "") in ("np.array_equal", "numpy.array_equal") and len(t.args) == 2 and all(coords(a) for a in t.args) \
+                and {t.args[0].value.id, t.args[1].value.id} == {p1, p2}:
+            return True
+        if pol and isinstance(t, ast.Call) and ((dotted(t.func) or "") in ("np.all", "numpy.all", "all") and len(t.args) == 1 or
+                                                (isinstance(t.func, ast.Attribute) and t.func.attr == "all" and not t.args)):
+            inner = t.args[0] if t.args else t.func.value
+            if isinstance(inner, ast.Compare) and len(inner.ops) == 1 and isinstance(inner.ops[0], ast.Eq) and coords(inner.left) and coords(inner.comparators[0]) \
+                    and {inner.left.value.id, inner.comparators[0].value.id} == {p1, p2}:
+                return True
     return False
 
 
